@@ -49,6 +49,10 @@ struct Inode {
   uint64_t urandom_seed = 0;
   uint64_t urandom_pos = 0;
   size_t capacity = SIZE_MAX; // REG: writes beyond this size hit ENOSPC (full disk)
+  // Scripted behaviour of successive read calls on descriptors of this inode (replayable without
+  // the tape): 0 = normal, k>0 = deliver at most k bytes, -1 = EIO from this call on (a failed medium stays
+  // failed; a transient error followed by successful reads is not modelled). Empty = not scripted.
+  std::vector<int> read_script;
 };
 
 struct OpenFile {
@@ -60,6 +64,7 @@ struct OpenFile {
   uint64_t bytes_delivered = 0; // total bytes handed out by read()
   uint64_t bytes_accepted = 0; // total bytes taken by write()
   short ready = 0; // poll readiness bits for Poll scenarios
+  size_t script_pos = 0;
   std::string path;
 };
 
